@@ -626,6 +626,10 @@ func runC05(c *Ctx, pr *PropertyRun) {
 	propSetTables(c, pr, "C05", []string{pkgWebdav})
 	freshPropTableRule(c, pr, "C05")
 	c05ReadDir(c, pr, "C05")
+	// every listed resource gets a FileInfo of its own: one variable filled
+	// in place per entry keeps what the previous entry had (a collection
+	// after a file carries the file's size, type and tag)
+	freshHolderRule(c, pr, "C05")
 	truncateRule(c, pr, "C05", nil)
 
 	urlParseRule(c, pr, "C05", nil)
